@@ -105,3 +105,31 @@ CHECKS["C08"] = {
          "seconds": {"thorough": 240}, "workers": 8},
     ],
 }
+
+CHECKS["C04"] = {
+    "level": "exploration",
+    "exhaustive_claim": False,
+    "technique": "property-based testing (rapid) over credentials with boundary-class attribute values, with exhaustive enumeration of all 2^k disclosure subsets x both session kinds per credential; oracle = ground truth of chosen indices/values + leak scan of the proof's JSON and of the timestamp contribution",
+    "level_text": "For every generated credential (plain, random-blind issuance, non-revocation; toy/1024/2048-bit keys) every disclosure subset is proven in a disclosure and in a signature session; the proof must verify (after a JSON round trip), report exactly the chosen indices with the exact attribute integers, carry a fully randomised response for every other index, not verify for the other session kind, and neither its JSON nor the timestamp contribution may contain a distinctive hidden value or its SHA-256.",
+    "level_note": "Subset dimension is exhaustive per credential (k<=6 toy, smaller for big keys in quick); value classes are sampled. The leak scan detects verbatim leaks (and unrandomised responses), not statistical leakage.",
+    "rule": ("case = one (credential, disclosure subset, session kind). Non-trivial: subset neither empty nor full, or containing an oversized value; distinct by (key, variant, class vector, subset mask, session kind)."),
+    "assumptions": ["math/big, crypto/sha256"],
+    "units": [
+        {"pkg": "root", "run": "TestVF_C04", "rapid": {"quick": 80, "thorough": 600},
+         "shards": {"quick": 8, "thorough": 16}, "timeout": {"quick": 500, "thorough": 3400}},
+    ],
+}
+
+CHECKS["C06"] = {
+    "level": "fault_enumeration",
+    "technique": "property-based testing (rapid) over issuance configurations (attribute classes x blind subset x keyshare x witness x key size) with complete enumeration of single-field alterations and cross-run substitutions of the protocol messages; oracle = honest run yields a credential over exactly (secret, attributes, blind = sum of shares), every deviation makes the receiving call fail without producing a credential",
+    "level_text": "Each generated configuration is run honestly with every message passing through JSON, the outcome is compared with the ground truth, and then every listed single-field deviation of the commitment message (judged at the issuer's ProofList.Verify) and of the signature message / nonces / commitment (judged at the user's ConstructCredential) is applied one at a time; a panic counts as not rejected.",
+    "level_note": "Reads the user's blind shares from the unexported CredentialBuilder.mUser (in-package test). Deviations that leave the proven statement unchanged (v + ord, in-range v' + ord) are expected to be accepted and are checked in that direction.",
+    "rule": ("case = one protocol run or one deviation presented to its receiver. Non-trivial: every case (honest runs over generated configurations and deviations that leave every other field valid); "
+             "distinct by (configuration class: #blind, keyshare, witness, key size; message; field; alteration)."),
+    "assumptions": ["encoding/json round trip of the messages (C18)"],
+    "units": [
+        {"pkg": "root", "run": "TestVF_C06", "rapid": {"quick": 100, "thorough": 800},
+         "shards": {"quick": 8, "thorough": 16}, "timeout": {"quick": 500, "thorough": 3400}},
+    ],
+}
